@@ -187,14 +187,25 @@ def run(ctx):
     # -- R7.3 ------------------------------------------------------------------------------------
     ctx.rule("R7.3", "rewriters remove and re-insert the same data children through generated inserters")
     nrw = 0
+    from sa.inline import expand as _exp73, with_self_class as _wsc73
+
+    rw_base = xm.classes.get("_BaseSeriesXmlRewriter")
     for c in xm.classes.values():
-        f = c.methods.get("_rewrite_ser_data")
-        if f is None or not any(isinstance(n, ast.Call) for n in ast.walk(f.node)):
+        # every concrete rewriter, with the method it runs (its own or the base's template method specialised to its tables / hooks)
+        if rw_base is None or rw_base not in prog.mro(c):
             continue
-        if all(isinstance(s, (ast.Raise, ast.Expr)) for s in f.node.body):
+        f0 = prog.lookup(c, "_rewrite_ser_data")
+        if f0 is None:
             continue
+        fx73 = _exp73(prog, _wsc73(f0, c), local_only=True)
+        if all(isinstance(s, (ast.Raise, ast.Expr, ast.Pass)) for s in fx73.body) or not any(isinstance(n, ast.Call) for n in ast.walk(fx73)):
+            continue   # the abstract base
+        import copy as _copy73
+
+        f = _copy73.copy(f0)
+        f.node = fx73
         nrw += 1
-        ser = f.params[1]
+        ser = f0.params[1]
         removed, inserted, other = [], [], []
         for n in walk_own(f.node):
             if isinstance(n, ast.Call) and isinstance(n.func, ast.Attribute) and isinstance(n.func.value, ast.Name) \
